@@ -1164,3 +1164,24 @@ def _m90():
     bt.Regenerating = Regenerating
     _patch_source(bt, 'install_dirs', "if context.regenerating:",
                   "if context.regenerating == Regenerating.true:")
+
+
+@mutant('driver_test_stays_default')
+def _m91():
+    # Test.__init__: a test handed to a driver is no longer withdrawn from the default set
+    from bfg9000.builtins import tests as bt
+    _patch_source(bt.Test, '__init__', """    primary = first(cmd)
+    if isinstance(primary, Node) and primary.creator:
+        context.build['defaults'].remove(primary)""", """    primary = first(cmd)
+    if isinstance(primary, Node) and primary.creator and not driver:
+        context.build['defaults'].remove(primary)""")
+
+
+@mutant('multitarget_phony_on_alias')
+def _m92():
+    # make multitarget_rule: phony goes to the recipe-less alias rule of a multi-output step
+    from bfg9000.backends.make import writer as mw
+    _patch_source(mw, 'multitarget_rule', """        buildfile.rule(target=targets, deps=[primary])
+        recipe = listify(recipe) + [Silent([ 'touch', qvar('@') ])]""", """        buildfile.rule(target=targets, deps=[primary], phony=phony)
+        recipe = listify(recipe) + [Silent([ 'touch', qvar('@') ])]
+        phony = None""")
